@@ -32,4 +32,5 @@ var verifHarnesses = map[string]func(){
 	"VerifC05NewValidatorHook": VerifC05NewValidatorHook,
 	"VerifC16Allocate": VerifC16Allocate,
 	"VerifC03TopNStep": VerifC03TopNStep,
+	"VerifC13Frame": VerifC13Frame,
 }
